@@ -638,17 +638,19 @@ func (s *genState) class(c ctx) ast.Expression {
 			items = append(items, ClassItem{Lo: rune("abcxyz01"[r.Intn(8)])})
 		}
 	}
-	if !av.ClassDash {
-		// D3: a dash only as the very first or the very last member, never
-		// as a range end
-		var kept []ClassItem
-		for _, it := range items {
-			if it.Class == "" && (it.Lo == '-' || it.Hi == '-') {
-				continue
+	{
+		// a dash among the members: anywhere when it is written as an escape sequence (it is then a character: repair of
+		// finding D3), plain only as the very first or the very last member or right after a complete range
+		for i := range items {
+			if items[i].Class == "" && (items[i].Lo == '-' || items[i].Hi == '-') {
+				items[i].Esc = true
 			}
-			kept = append(kept, it)
 		}
-		items = kept
+		if r.Intn(8) == 0 && len(items) > 0 {
+			// an escaped dash between two single characters: [a\x2dc] is a, '-', c
+			k := r.Intn(len(items) + 1)
+			items = append(items[:k:k], append([]ClassItem{{Lo: '-', Esc: true}}, items[k:]...)...)
+		}
 		if r.Intn(6) == 0 {
 			if r.Intn(2) == 0 {
 				items = append([]ClassItem{{Lo: '-'}}, items...)
